@@ -219,8 +219,14 @@ DOMNode* DOMTreeWalkerImpl::previousNode () {
     }
     else {
 
-        // get the lastChild of result.
+        // get the deepest last visible descendant of result.
         DOMNode* lastChild  = getLastChild(node);
+        DOMNode* prev = lastChild;
+        while (lastChild != 0) {
+            prev = lastChild;
+            lastChild = getLastChild(prev);
+        }
+        lastChild = prev;
 
         // if there is a lastChild which passes filters return it.
         if (lastChild != 0) {
